@@ -14,81 +14,92 @@ def oracles_():
 
 
 TRUSTED = [
-    "impl/t_valid.c (verdict = return code, vecode, app-tag and the class of the error message; dump with LYD_NEW / "
-    "LYD_DEFAULT flags), ocaml/tree_io.ml + ocaml/run_valid.ml (dump and schema tables -> model values), tools/treeenc.py + "
+    "impl/t_valid.c (verdict = return code, vecode, app-tag and the class read from the error message by a prefix table; "
+    "dump with LYD_NEW / LYD_DEFAULT flags; edit commands over the public API), ocaml/tree_io.ml + ocaml/run_valid.ml (dump and schema tables -> model values), tools/treeenc.py + "
     "tools/validenc.py (yanggen module -> Tree.schema line, schema tree with choices/cases, unique table; sids in "
     "lys_getnext order), tools/yanggen.py (modules, valid-by-construction instances, own XML / JSON encoders), "
     "validenc.py_violations (independent Python reading of the RFC rules used as expectation)",
 ]
 
 ASSUMPTIONS = [
-    "C02_validate_iff_rfc_partial / C02_error_class speak about FRESH trees (every node flagged LYD_NEW, none LYD_DEFAULT, no "
-    "non-presence container without children: what a parser builds from a document without empty containers), "
-    "C02_history_iff_rfc_partial about trees that satisfy hist_ok (the un-flagged nodes were validated before, no LYD_DEFAULT "
-    "flags, no case replacement) with values of their types and list entries with their keys; both about schemas that "
-    "satisfy vschema_ok (checked on every generated schema by the correspondence run) and about the modelled rule set only "
-    "(no when / must / leafref / instance-identifier, one module); C02_multi_error_first has no hypothesis",
-    "type restrictions are a parameter (type_ok): the slices types / restrict / regex prove them; the parser's own checks "
-    "(value of the type, list keys) are modelled as a pre-pass on the tree, the document level (unknown elements, key order "
-    "in XML) is not",
+    "every theorem is about the Gallina transcriptions in ValidateImpl.v, not about the C text; the C code is tied by the "
+    "differential runs (components validmodel, idrefmodel) and the oracle only",
+    "C02_validate_iff_rfc_partial / C02_error_sound / C02_error_class / C02_impl_verdict_perm_invariant: vschema_ok vs (schema "
+    "tree well formed: choices hold cases, no mandatory node directly under a default case, list keys are leaves, unique "
+    "paths lead through containers to a leaf of the list; evaluated on every generated schema by the correspondence run) and "
+    "fresh vs f (no LYD_DEFAULT flag, no non-presence container without children; the tree is then validated with every node "
+    "flagged LYD_NEW: what a parser builds from a document without empty containers)",
+    "C02_history_iff_rfc_partial / C02_history_error_sound: vschema_ok, hist_ok (the nodes NOT flagged LYD_NEW are duplicate-free "
+    "among themselves and lie in one case per choice, new data do not sit in another case than old data, no LYD_DEFAULT "
+    "flag), no empty non-presence container, and rfc_types / rfc_keys of the content as hypotheses (lyd_validate_module does "
+    "not re-check values and keys)",
+    "C02_identityref_all_bases: IdAcyclic (no identity is transitively its own base; the compiler rejects that). "
+    "C02_multi_error_first / _verdict and C02_verdict_perm_invariant have no hypothesis",
+    "all theorems: the modelled rule set only (no when / must / leafref / instance-identifier, one module); type restrictions "
+    "are a parameter type_ok of the spec and of impl_parse_validate (slices types / restrict / regex; identityref here); the "
+    "parser's own checks (value of the type, list keys) are a pre-pass on the tree, the document level (unknown elements, "
+    "key order in XML) is not modelled",
 ]
 
 MANIFEST = {
     "category": "proof",
-    "text": "Coq (Properties_C02_valid.v, closed under the global context). RfcValid.v is the SPEC: one independent boolean per "
-            "RFC 7950 rule (types 9, list keys 7.8.2, single instance 7.5/7.6, key uniqueness 7.8.2, configuration leaf-list "
-            "values 7.7, one case per choice 7.9, mandatory leaf/anydata 7.6.5, mandatory choice 7.9.4, min-elements 7.7.5, "
-            "max-elements 7.7.6, unique 7.8.3 with defaults in use 7.6.1), flag-free and order-free, read on the tree without "
-            "empty non-presence containers (7.5.1). ValidateImpl.v is lyd_validate() AS CODED for these rules (state after the "
-            "fixes 06232b2, ba1198e, 357db45): lyd_validate_new (cases old/new with auto-deletion, default auto-deletion incl. "
-            "the walk through nested default cases, duplicates ONLY for nodes flagged LYD_NEW), the DFS of "
-            "lyd_validate_subtree, lyd_validate_final_r / lyd_validate_siblings_schema_r (choices first, first case with data), "
-            "lyd_validate_mandatory / _minmax / _unique with lyd_val_uniq_dflt_in_use, implicit non-presence containers, and the "
-            "parser's type / key checks. Theorems: C02_validate_iff_rfc_partial (fresh tree, any well-formed schema: "
-            "impl_parse_validate = Ok <-> rfc_valid), C02_error_sound / C02_error_class (an error of class e only when rule class "
-            "e is violated; exactly one class violated -> that class with its RFC 7950 section 15 app-tag), "
-            "C02_verdict_perm_invariant (rfc_valid, and the verdict on fresh trees, are invariant under any permutation of "
-            "siblings at every level), C02_history_iff_rfc_partial (a tree whose un-flagged part was validated before - hist_ok - "
-            "and whose flagged nodes are arbitrary: lyd_validate_module = Ok <-> rfc_valid of the content; a new node is checked "
-            "against ALL siblings), C02_multi_error_first / _verdict (impl_validate_multi, the code with every return on a "
-            "validation error replaced by record-and-continue: for EVERY tree the first logged error is the error of the plain "
-            "run, so accept / reject does not depend on LYD_VALIDATE_MULTI_ERROR), C02_identityref_all_bases (one type predicate: "
-            "identityref_check_base / lyplg_type_identity_isderived accept exactly the identities derived transitively from ALL "
-            "bases, for acyclic base statements; component idrefmodel ties it on random identity hierarchies over two "
-            "modules), C02_validate_iff_rfc_refuted (arbitrary flags: an UN-FLAGGED duplicate is accepted - "
-            "validation is incremental; since 06232b2 the public insert functions set the flag), C02_regressions (the witnesses "
-            "of the fixed findings unique-default-not-in-use and stale-nested-default-case now behave as the RFC says). Tie: "
-            "component validmodel runs lyd_validate_module and the extracted impl_validate / rfc_valid on the same trees (the "
-            "dump of a LYD_PARSE_ONLY parse with flags, and of trees edited through the API - new path, free, change, move "
-            "between list entries, duplicate + insert - and validated again): verdict, error class and app-tag must be equal, "
-            "rfc_valid must agree with the verdict (for edited trees: of the resulting explicit content), its violated rules "
-            "with an independent Python reading of the RFC; every fresh tree is validated a second time with "
-            "LYD_VALIDATE_MULTI_ERROR (libyang reports the LAST logged error = last element of impl_validate_multi); histories: "
-            "the valid instance parsed with LYD_PARSE_NO_NEW (validated state, no implicit nodes), nodes added by lyd_new_term / "
-            "lyd_new_list2 / lyd_new_path / dup+insert / change, then validated (hist_ok is evaluated on each, and the history "
-            "theorem re-checked). Oracle validmut: valid instance + one mutation per rule class (also "
-            "must / when on nodes, choices and cases / leafref / instance-identifier) through XML, JSON, LYB, shuffled siblings, "
-            "parse+validate, parse-only + validate, lyd_new_path + validate, lyd_free_tree on the validated valid instance + "
-            "validate: every route gives the verdict and class expected by construction; duplicates next to leaf-list values "
-            "whose node hashes collide; lists with several unique statements, 3+ entries and incomplete earlier sets; the "
-            "witnesses of the fixed findings as regression cases.",
-    "note": "PARTIAL - what C02_validate_iff_rfc_partial / C02_history_iff_rfc_partial leave out of the full statement: (a) RULES: "
-            "when, must, leafref and instance-identifier require-instance, and the type restrictions themselves (a parameter "
-            "type_ok) are not in the Coq models - the oracle covers them by construction (incl. every built-in type, "
-            "identityref with 1-3 bases, if-feature, state placement); input/output placement (RPC / action) is not covered at "
-            "all. (b) TREES: the theorems need hist_ok - the nodes NOT flagged LYD_NEW were validated before (no duplicates, one "
-            "case per choice among them), no node is flagged LYD_DEFAULT, new data do not sit in another case than old data - "
-            "fresh trees (everything flagged, what a parser builds) are the special case; outside are the auto-deletions "
-            "(defaults, old case replaced by a new one: there validation edits the tree and the verdict is about the result - "
-            "modelled in ValidateImpl and tied by the correspondence run, not in a theorem), un-flagged duplicates (refuted "
-            "theorem: only reachable by manipulating flags or links directly) and explicit empty non-presence containers "
-            "(finding empty-np-container-dupcase). (c) OPTIONS / ENTRY POINTS: LYD_VALIDATE_MULTI_ERROR is modelled "
-            "(impl_validate_multi; C02_multi_error_first holds for every tree); NO_STATE, OPERATIONAL, NO_DEFAULTS, NOT_FINAL, the "
-            "validation diff, RPC / notification / extension-data validation, several modules are not. (d) the implicit default "
-            "nodes are not materialised (WithDefaults slice): schemas where a leaf-list has both defaults and min/max-elements "
-            "are excluded; the children_ht and the linear path of lyd_validate_duplicates are one model function; the document "
-            "level (unknown elements, XML key order) is not modelled. Known findings: instid-notfound-rc, "
-            "empty-np-container-dupcase, lyb-when-not-evaluated; fixed: moved-node-dup-unchecked (06232b2), "
+    "text": "Coq (Properties_C02_valid.v, every theorem closed under the global context) about Gallina models, tied to libyang by "
+            "differential runs. RfcValid.v is the SPEC: one independent boolean per RFC 7950 rule (types 9 as a parameter, list "
+            "keys 7.8.2, single instance 7.5/7.6, key uniqueness 7.8.2, configuration leaf-list values 7.7, one case per choice "
+            "7.9, mandatory leaf/anydata 7.6.5, mandatory choice 7.9.4, min-elements 7.7.5, max-elements 7.7.6, unique 7.8.3 "
+            "with defaults in use 7.6.1), flag-free, read on the tree without empty non-presence containers (7.5.1). "
+            "ValidateImpl.v TRANSCRIBES lyd_validate() for these rules (state after the fixes 06232b2, ba1198e, 357db45): "
+            "lyd_validate_new (cases old/new with auto-deletion, default auto-deletion incl. the walk through nested default "
+            "cases, duplicates only for nodes flagged LYD_NEW), the DFS of lyd_validate_subtree, lyd_validate_final_r / "
+            "lyd_validate_siblings_schema_r (choices first, first case with data), lyd_validate_mandatory / _minmax / _unique "
+            "with lyd_val_uniq_dflt_in_use, implicit non-presence containers (visited, not materialised), the parser's type / "
+            "key checks as a pre-pass, the same code in multi-error mode (impl_validate_multi), identityref_check_base. "
+            "Theorems (hypotheses: ASSUMPTIONS): C02_validate_iff_rfc_partial (vschema_ok, fresh tree: impl_parse_validate = Ok "
+            "<-> rfc_valid); C02_error_sound / C02_error_class (fresh: an error of class e only if rule class e is violated; "
+            "exactly one class violated -> that class, reported as LY_EVALID / LYVE_DATA / app-tag of C02_apptags); "
+            "C02_history_iff_rfc_partial / C02_history_error_sound (hist_ok: the un-flagged part was validated before, flagged "
+            "nodes arbitrary, values and keys of the content fine: impl_validate = Ok <-> rfc_valid of the content; a new node is "
+            "compared with ALL siblings; C02_history_examples); C02_multi_error_first / _verdict (every tree, no hypothesis: the "
+            "first error logged by impl_validate_multi is the error of impl_validate, so the MODEL's accept / reject does not "
+            "depend on LYD_VALIDATE_MULTI_ERROR; C02_multi_error_example); C02_identityref_all_bases (idref_check accepts exactly "
+            "the identities derived transitively from ALL bases, for acyclic base statements; C02_identityref_example); "
+            "C02_verdict_perm_invariant (rfc_valid is invariant under permutation of siblings at every level, all trees) and "
+            "C02_impl_verdict_perm_invariant (so is impl_parse_validate = Ok on fresh trees); C02_validate_iff_rfc_refuted (the "
+            "iff for ARBITRARY flags, Definition C02_validate_iff_rfc, is false in the model: an un-flagged duplicate is accepted - validation is incremental; "
+            "since 06232b2 the public insert functions set the flag); C02_regressions (model facts: the witnesses of the fixed "
+            "findings unique-default-not-in-use and stale-nested-default-case now get the RFC verdict); C02_example (the "
+            "hypotheses are satisfiable, one mutation per class gives that class). Tie T2: component validmodel runs "
+            "lyd_validate_module (driver impl/t_valid.c) and the extracted impl_validate / rfc_valid on the same trees - the dump "
+            "WITH LYD_NEW / LYD_DEFAULT flags of a LYD_PARSE_ONLY parse (generated modules, valid or 1-3 mutations; families for "
+            "several unique statements, implicit nodes under nested choices, cases that start with implicit defaults), of "
+            "trees edited through the API and validated again, and of histories (valid instance parsed with LYD_PARSE_NO_NEW, "
+            "nodes added by lyd_new_term / lyd_new_list2 / lyd_new_path / dup+insert / change): verdict, error class and app-tag "
+            "must be equal; rfc_valid must agree with the verdict (edited trees: of the resulting explicit content), its violated "
+            "rules with an independent Python reading of the RFC; vschema_ok / fresh / hist_ok are evaluated and the two iff "
+            "theorems re-checked on every case; every fresh tree is validated again with LYD_VALIDATE_MULTI_ERROR (libyang "
+            "reports the last logged error = last element of impl_validate_multi). Component idrefmodel: random acyclic identity "
+            "hierarchies over two modules, identityref with 1-3 bases, libyang's acceptance = idref_check. ORACLE validmut "
+            "(expectation by construction / Python reading, no model): valid instance + one mutation per rule class, the same "
+            "families, fixed documents for must, when on nodes / choices / cases, leafref, instance-identifier, if-feature, and "
+            "type restrictions of every built-in type, through XML, JSON, LYB, shuffled siblings, parse+validate, parse-only + "
+            "lyd_validate_module / _all, each also with MULTI_ERROR, lyd_new_path + validate, lyd_free_tree or lyd_new_term / "
+            "lyd_new_list2 (duplicate, other lexical form, or fresh) on the validated instance + validate, NO_STATE placement: "
+            "every route gives the verdict (and class where one error is expected); leaf-list values with colliding node hashes; "
+            "the witnesses of the fixed findings as regression cases.",
+    "note": "PARTIAL. (a) RULES: when, must, leafref and instance-identifier require-instance and the type restrictions (parameter "
+            "type_ok; only identityref is modelled) are not in the Coq models - oracle level only, incl. if-feature and state "
+            "placement; input/output placement (RPC / action) is covered by nothing. (b) TREES: the iff theorems need hist_ok "
+            "(fresh trees = everything flagged are the special case); outside are the auto-deletions (defaults, old case replaced "
+            "by a new one: validation edits the tree, the verdict is about the result - transcribed in ValidateImpl and tied by "
+            "the correspondence run, no theorem), un-flagged duplicates (refuted theorem; reachable only by manipulating flags "
+            "or links directly) and explicit empty non-presence containers (finding empty-np-container-dupcase). (c) OPTIONS: "
+            "LYD_VALIDATE_MULTI_ERROR is modelled; NO_STATE (oracle only), OPERATIONAL, NO_DEFAULTS, NOT_FINAL, the validation "
+            "diff, RPC / notification / extension-data validation, several modules (beyond an imported identity module) are not. "
+            "(d) implicit default nodes are not materialised (WithDefaults slice): schemas where a leaf-list has both defaults "
+            "and min/max-elements are excluded; the children_ht and the linear path of lyd_validate_duplicates are one model "
+            "function (hash collisions: oracle only); the document level (unknown elements, XML key order) is not modelled; the "
+            "error class of libyang is read from the message text by impl/t_valid.c. Known findings (still reproduce): "
+            "instid-notfound-rc, empty-np-container-dupcase, lyb-when-not-evaluated; fixed: moved-node-dup-unchecked (06232b2), "
             "unique-default-not-in-use (ba1198e), stale-nested-default-case (357db45).",
     "technique": "Coq proof about a transcribed functional model against an RFC-derived specification + differential "
                  "correspondence on libyang trees (with flags) + metamorphic / by-construction API oracle",
